@@ -485,11 +485,18 @@ func vfStopCCNCase() string {
 	}
 	_ = dispatch(t.LocalID, 1, 1, l2tppkt.BuildSCCCN(nil))
 	_ = dispatch(t.LocalID, 2, 1, l2tppkt.BuildStopCCN(99, 1, 0, ""))
+	// the acknowledgement has to leave during the Dispatch that tears the tunnel down (FlushAck); only a tree
+	// without it makes us wait
 	res := "acked=0"
 	select {
 	case <-acked:
 		res = "acked=1"
-	case <-time.After(700 * time.Millisecond):
+	default:
+		select {
+		case <-acked:
+			res = "acked=late"
+		case <-time.After(700 * time.Millisecond):
+		}
 	}
 	c.stopTunnelRunner(t.PeerIP, t.LocalID)
 	return fmt.Sprintf("stopccn nr=%d %s", t.Channel.Nr(), res)
@@ -600,6 +607,96 @@ func vfIdleCase(f []string) string {
 	return "idle " + res
 }
 
+// runner <watch_ms> <at_ms>:<ev>...: the REAL runner loop with its real timers against a scripted peer.
+// At 0 the peer's SCCRQ is dispatched (tunnel, channel, runner goroutine; SCCRP sent).  Each event is
+// dispatched at its offset: scccn (Ns in order, acknowledges the SCCRP), hello (in order, acknowledges nothing
+// new), icrq (in order; we answer with an ICRP), ack (ZLB acknowledging everything we have sent).  Every
+// packet the tunnel writes is recorded with its time: "<d|z><ns>.<nr>@<ms>".  The model driver replays the
+// script against runner_next and accepts the observed times within a tolerance (MODEL_NEEDS_IMPL).
+// All runner cases of a run are started together (they only sleep), see TestVerifC16Dispatch.
+func vfRunnerCase(f []string) string {
+	n := func(s string) int { v, _ := strconv.Atoi(s); return v }
+	watch := n(f[0])
+	c := New(logger.Get("l2tp"))
+	peer := net.IPv4(10, 0, 0, 2).To4()
+	local := net.IPv4(10, 0, 0, 1).To4()
+	var mu sync.Mutex
+	var log []string
+	var lastNs uint16
+	var start time.Time
+	c.SetSendControlFn(func(localIP, peerIP net.IP, lp, pp uint16, h l2tppkt.Header, body []byte) error {
+		ms := time.Since(start).Milliseconds()
+		k := "d"
+		if len(body) == 0 {
+			k = "z"
+		}
+		mu.Lock()
+		log = append(log, fmt.Sprintf("%s%d.%d@%d", k, h.Ns, h.Nr, ms))
+		if len(body) > 0 && h.Ns+1 > lastNs {
+			lastNs = h.Ns + 1
+		}
+		mu.Unlock()
+		return nil
+	})
+	c.SetLNSConfigResolver(func(string) (LNSConfig, bool) {
+		return LNSConfig{LocalHostname: "lns", ReceiveWindowSize: 16, HelloInterval: time.Hour}, true
+	})
+	dispatch := func(tid, ns, nr uint16, body []byte) error {
+		h := l2tppkt.NewControl(tid, 0, ns, nr)
+		wire := append(h.AppendTo(nil, len(body)), body...)
+		pkt := &dataplane.ParsedPacket{
+			Protocol: models.ProtocolL2TP,
+			IPv4:     &layers.IPv4{SrcIP: peer, DstIP: local},
+			UDP:      &layers.UDP{SrcPort: 1701, DstPort: 1701},
+		}
+		pkt.UDP.Payload = wire
+		return c.Dispatch(pkt)
+	}
+	body := l2tppkt.BuildSCCRQ(l2tppkt.SCCRQParams{HostName: "lac", LocalTunnelID: 99, ReceiveWindowSize: 16, FramingCaps: 3})
+	start = time.Now()
+	if err := dispatch(0, 0, 0, body); err != nil {
+		return "sccrq-failed"
+	}
+	var t *Tunnel
+	c.mu.RLock()
+	for _, x := range c.tunnels {
+		t = x
+	}
+	c.mu.RUnlock()
+	if t == nil {
+		return "no-tunnel"
+	}
+	peerNs, acked := uint16(1), uint16(1) // peer's next Ns; Nr the peer tells us
+	for _, ev := range f[1:] {
+		a := strings.SplitN(ev, ":", 2)
+		if len(a) != 2 {
+			continue
+		}
+		time.Sleep(time.Until(start.Add(time.Duration(n(a[0])) * time.Millisecond)))
+		switch a[1] {
+		case "scccn":
+			_ = dispatch(t.LocalID, peerNs, acked, l2tppkt.BuildSCCCN(nil))
+			peerNs++
+		case "hello":
+			_ = dispatch(t.LocalID, peerNs, acked, l2tppkt.BuildHello())
+			peerNs++
+		case "icrq":
+			_ = dispatch(t.LocalID, peerNs, acked, l2tppkt.BuildICRQ(l2tppkt.ICRQParams{LocalSessionID: 77 + peerNs, CallSerialNumber: 1}))
+			peerNs++
+		case "ack":
+			mu.Lock()
+			acked = lastNs
+			mu.Unlock()
+			_ = dispatch(t.LocalID, peerNs, acked, nil)
+		}
+	}
+	time.Sleep(time.Until(start.Add(time.Duration(watch) * time.Millisecond)))
+	c.stopTunnelRunner(t.PeerIP, t.LocalID)
+	mu.Lock()
+	defer mu.Unlock()
+	return "runner " + strings.Join(log, " ")
+}
+
 func vfDispGuard(line string) string {
 	done := make(chan string, 1)
 	go func() {
@@ -611,6 +708,8 @@ func vfDispGuard(line string) string {
 		f := strings.Fields(line)
 		if len(f) >= 2 && f[0] == "disp" {
 			done <- vfDispCase(f[1:])
+		} else if len(f) >= 2 && f[0] == "runner" {
+			done <- vfRunnerCase(f[1:])
 		} else if len(f) == 2 && f[0] == "idle" {
 			done <- vfIdleCase(f[1:])
 		} else if len(f) == 1 && f[0] == "sccrqdup" {
@@ -652,10 +751,30 @@ func TestVerifC16Dispatch(t *testing.T) {
 	defer w.Flush()
 	sc := bufio.NewScanner(in)
 	sc.Buffer(make([]byte, 1<<20), 1<<26)
+	var lines []string
 	for sc.Scan() {
-		if strings.TrimSpace(sc.Text()) == "" {
-			continue
+		if strings.TrimSpace(sc.Text()) != "" {
+			lines = append(lines, sc.Text())
 		}
-		fmt.Fprintln(w, vfDispGuard(sc.Text()))
+	}
+	// the real-time runner cases only sleep: run them all at once, before the CPU-bound cases
+	pre := map[int]chan string{}
+	for i, l := range lines {
+		if strings.HasPrefix(l, "runner ") {
+			ch := make(chan string, 1)
+			pre[i] = ch
+			go func(l string) { ch <- vfDispGuard(l) }(l)
+		}
+	}
+	res := map[int]string{}
+	for i, ch := range pre {
+		res[i] = <-ch
+	}
+	for i, l := range lines {
+		if r, ok := res[i]; ok {
+			fmt.Fprintln(w, r)
+		} else {
+			fmt.Fprintln(w, vfDispGuard(l))
+		}
 	}
 }
